@@ -178,8 +178,31 @@ def intrinsic_types(tier):
         yield d
 
 
+# Distinct dependency types that all go by the name vns.Dep.1.0 (one per read) and are engineered to collide under an approximate
+# comparison (equal min, max and residues mod 32, different sets): a process-wide cache of layout intrinsics keyed by the type
+# (or its name) would hand one of them the set of another.
+U16_56 = ["union", [["uint", 8, "s"], ["uint", 56, "s"]]]  # lengths {16, 64}
+ALIAS_DEPS = [
+    ["struct", [["varr", ["uint", 16, "s"], 4]]],              # {8,24,40,56,72}
+    ["struct", [["varr", U16_56, 1]]],                            # {8,24,72}
+    ["struct", [["varr", ["struct", [["uint", 64, "s"]]], 1]]],  # {8,72}
+    ["struct", [["varr", ["uint", 32, "s"], 2]]],                 # {8,40,72}
+    ["struct", [["varr", ["uint", 8, "s"], 8]]],                  # {8,16,...,72}
+    ["struct", [["uint", 8, "s"], ["varr", ["uint", 16, "s"], 3]]],  # {16,32,48,64}
+    ["struct", [["uint", 8, "s"], ["varr", ["uint", 48, "s"], 1]]],  # {16,64}
+    ["struct", [["uint", 8, "s"], ["varr", ["uint", 24, "s"], 2]]],  # {16,40,64}
+    ["union", [["uint", 8, "s"], ["uint", 56, "s"]]],
+    ["union", [["uint", 8, "s"], ["uint", 24, "s"], ["uint", 56, "s"]]],  # {16,32,64}
+    ["delim", ["struct", [["uint", 8, "s"]]], 32],
+    ["delim", ["struct", [["uint", 8, "s"], ["uint", 16, "s"]]], 32],
+]
+SVC_ALPHA = [["bool"], ["uint", 3, "s"], ["uint", 8, "s"], ["varr", ["bool"], 3], ["varr", ["uint", 8, "s"], 2], ["void", 5]]
+
+
 def plan(tier):
     shards = [{"kind": "offsets", "part": p, "parts": 48} for p in range(48)]
+    shards += [{"kind": "alias-intrinsics"}]
+    shards += [{"kind": "service-intrinsics", "part": p, "parts": 16} for p in range(16)]
     shards += [{"kind": "arrays", "part": p, "parts": 4} for p in range(4)]
     shards += [{"kind": "intrinsics", "part": p, "parts": 32} for p in range(32)]
     return shards
@@ -198,6 +221,21 @@ def cases(shard, tier):
                 if i % shard["parts"] == shard["part"]:
                     yield {"kind": "array", "desc": ["farr", e, n]}
                 i += 1
+    elif shard["kind"] == "alias-intrinsics":
+        for a, b in itertools.permutations(range(len(ALIAS_DEPS)), 2):
+            yield {"kind": "alias-intrinsics", "pair": [a, b]}
+    elif shard["kind"] == "service-intrinsics":
+        ss = list(T.structs(SVC_ALPHA, 2))
+        i = 0
+        for a, b in itertools.product(range(len(ss)), repeat=2):
+            if i % shard["parts"] == shard["part"]:
+                # where _offset_ is evaluated: at every position, or at exactly one position per section (memoised state of the
+                # builder must not leak between positions or across the --- marker)
+                yield {"kind": "service-intrinsics", "request": ss[a], "response": ss[b], "where": ["all", "all"]}
+                for pa in range(len(ss[a][1]) + 1):
+                    for pb in range(len(ss[b][1]) + 1):
+                        yield {"kind": "service-intrinsics", "request": ss[a], "response": ss[b], "where": [pa, pb]}
+            i += 1
     else:
         for i, d in enumerate(intrinsic_types(tier)):
             if i % shard["parts"] == shard["part"]:
@@ -382,7 +420,81 @@ def check_intrinsics(case, R):
                 R.violation("intrinsic-extent", "T._extent_ == T.extent", one, observed=got, expected=str(L.extent(f)))
 
 
+def dep_files(desc, name="Dep"):
+    """files defining `desc` under the fixed name vns.<name>.1.0 (its own dependencies keep their hash-derived names)"""
+    files = {}
+    inner = desc[1] if desc[0] == "delim" else desc
+    lines = ["@union"] if inner[0] == "union" else []
+    for i, f in enumerate(inner[1]):
+        T.to_files(f, files)
+        lines.append(T.type_expr(f) if f[0] == "void" else "%s f%d" % (T.type_expr(f), i))
+    lines.append("@extent %d" % desc[2] if desc[0] == "delim" else "@sealed")
+    files["vns/%s.1.0.dsdl" % name] = "\n".join(lines) + "\n"
+    return files
+
+
+def check_alias_intrinsics(case, R):
+    for step, idx in enumerate(case["pair"]):
+        d = ALIAS_DEPS[idx]
+        files = dep_files(d)
+        files["vns/Main.1.0.dsdl"] = "Dep.1.0 d\n@print Dep.1.0._bit_length_\n@print Dep.1.0._extent_\n@print _offset_\nDep.1.0[<=2] e\n@print _offset_\n@sealed\n"
+        o = api.read_namespace_tree(files, "vns")
+        one = {**case, "step": step}
+        R.case([case["pair"], step], nontrivial=True, sample=(step == 1 and len(R.samples) < 2))
+        if o.error is not None:
+            R.violation("intrinsics-definition-rejected", "harness: valid definition", one, observed=o.error)
+            return
+        prints = {ln: txt for path, ln, txt in o.prints if path == "vns/Main.1.0.dsdl"}
+        want_bls = set(L.lengths(d))
+        cur = L.advance(frozenset([0]), d)
+        cur2 = L.advance(cur, ["varr", d, 2])
+        R.outcome("_alias_")
+        checks = [(2, "bit-length", parse_set(prints.get(2, "{-1}")), want_bls), (3, "extent", prints.get(3), str(L.extent(d))), (4, "offset", parse_set(prints.get(4, "{-1}")), set(cur)), (6, "offset", parse_set(prints.get(6, "{-1}")), set(cur2))]
+        for ln, what, got, exp in checks:
+            if got != exp:
+                R.violation("intrinsic-%s-depends-on-history" % what, "intrinsics of a type equal its own layout whatever other same-named types were read before in the process", one, observed=sorted(got) if isinstance(got, set) else got, expected=sorted(exp) if isinstance(exp, set) else exp)
+                return
+
+
+def check_service_intrinsics(case, R):
+    files = {}
+    lines = []
+    expect = []
+    for si, desc in enumerate((case["request"], case["response"])):
+        if si == 1:
+            lines.append("---")
+        cur = frozenset([0])
+        where = case.get("where", ["all", "all"])[si]
+        for i, f in enumerate(desc[1]):
+            if where == "all" or where == i:
+                lines.append("@print _offset_")
+                expect.append((len(lines), set(cur)))
+            lines.append(T.type_expr(f) if f[0] == "void" else "%s f%d" % (T.type_expr(f), i))
+            cur = L.advance(cur, f)
+        if where == "all" or where == len(desc[1]):
+            lines.append("@print _offset_")
+            expect.append((len(lines), set(cur)))
+        lines.append("@sealed")
+    files["vns/Svc.1.0.dsdl"] = "\n".join(lines) + "\n"
+    o = api.read_namespace_tree(files, "vns")
+    if o.error is not None:
+        R.violation("intrinsics-definition-rejected", "harness: valid service definition", case, observed={"error": o.error, "text": files["vns/Svc.1.0.dsdl"]})
+        return
+    prints = {ln: txt for path, ln, txt in o.prints}
+    for pos, (ln, exp) in enumerate(expect):
+        R.case([case["request"], case["response"], case.get("where"), pos], nontrivial=pos >= 1, sample=(pos == 3 and len(R.samples) < 2))
+        R.outcome("_offset_service")
+        got = parse_set(prints.get(ln, "{-1}"))
+        if got != exp:
+            R.violation("intrinsic-offset-service", "_offset_ in a service section is the set of lengths of everything before that point IN THAT SECTION", {**case, "position": pos}, observed=sorted(got), expected=sorted(exp))
+            return
+
+
 def check_case(case, R):
+    if case["kind"] == "alias-intrinsics":
+        return check_alias_intrinsics(case, R)
+    if case["kind"] == "service-intrinsics":
+        return check_service_intrinsics(case, R)
     if case["kind"] == "offsets":
         check_offsets(case, R)
     elif case["kind"] == "array":
@@ -396,7 +508,7 @@ def worker_init():
 
 
 def finish(tier, M):
-    need = ["offset-match", "element-offset", "_offset_", "_bls_", "_extent_"]
+    need = ["offset-match", "element-offset", "_offset_", "_bls_", "_extent_", "_alias_", "_offset_service"]
     miss = [n for n in need if not M.hist.get(n)]
     if miss or not M.counters.get("traces_validated_against_impl"):
         raise engine.Vacuous("not visited: %s" % miss)
